@@ -529,11 +529,17 @@ impl<'a> Tr<'a> {
             Ty::Extern(n) => {
                 let e = self.t.externs.get(&n).cloned().ok_or_else(|| unsupported(at, "unknown extern type"))?;
                 let ty_of = |t: &Ty| if *t == Ty::Extern("Self".into()) { Ty::Extern(n.clone()) } else { t.clone() };
+                let want: Vec<Ty> = e.margs.get(&name).cloned().unwrap_or_default();
                 match e.methods.iter().find(|m| m.0 == name) {
-                    Some((_, ty, f)) if args.is_empty() => {
+                    Some((_, ty, f)) if args.len() == want.len() => {
                         let ty = &ty_of(ty);
                         let mut a = self.extern_row(&e, env, at)?;
                         a.push(recv.s.clone());
+                        for (x, t) in args.iter().zip(want.iter()) {
+                            let v = self.pure(x, env, Some(t))?;
+                            join(&v.ty, t).map_err(|m| unsupported(at, &m))?;
+                            a.push(v.s);
+                        }
                         Ok(Val { s: app(f, &a), ty: ty.clone() })
                     }
                     _ => Err(unsupported(at, &format!("method `{}` on extern type `{}` (not listed in its `extern` line)", name, n))),
